@@ -517,9 +517,11 @@ func checkC14(c *Ctx, p *Prog, r *Result) {
 		r.fail("anchor fdo/internal/nistkdf.KDF not found")
 	}
 
+	r.rule("C14.dh-ranges", "in the finite-field DH derivation the peer's public value is confined to [2, p-2] and the shared secret to [2, p-2] (or >= 2 with p-1 excluded) before the key derivation: the bounds are read off the big.Int comparisons as linear forms in the modulus (NIST SP 800-56A rev. 3, 5.6.2.3.2 and 5.7.1.1)")
+	r.floor("C14.dh-ranges", 2)
 	// (d) parameter validation
-	r.rule("C14.peer-parameter-validation", "key derivation succeeds only after the peer's parameter was validated (DH: 2 range comparisons of the public value and 2 of the shared secret; ECDH: NewPublicKey and ECDH err==nil; OAEP: DecryptOAEP err==nil)")
-	r.floor("C14.peer-parameter-validation", 3)
+	r.rule("C14.peer-parameter-validation", "key derivation succeeds only after the peer's parameter was validated (DH: see C14.dh-ranges; ECDH: NewPublicKey and ECDH err==nil; OAEP: DecryptOAEP err==nil)")
+	r.floor("C14.peer-parameter-validation", 2)
 	cmpNeg := func(name Atom, want string) AtomDef { // big.Int.Cmp result compared with 0
 		return AtomDef{Name: name, Edge: func(m *Matcher, pd Pred, holds bool) bool {
 			n, _, call := m.ResultOf(pd.X)
@@ -578,9 +580,13 @@ func checkC14(c *Ctx, p *Prog, r *Result) {
 				}
 			}
 		}
+		if usesBig {
+			c14DHRanges(p, r, fn, call)
+		}
 		switch {
 		case usesBig:
-			r.table(p, "C14.peer-parameter-validation", p.FuncName(fn), p.instrPos(call), n >= 4, fmt.Sprintf("%d big.Int.Cmp outcomes established before the KDF call (need 4: two for the public value, two for the shared secret)", n))
+			// decided by C14.dh-ranges (symbolic intervals) instead of counting comparisons
+			_ = n
 		case st.Has("oaep-ok") || callsNamed(p, fn, "crypto/rsa.DecryptOAEP") || anyCallerCalls(p, fn, "crypto/rsa.DecryptOAEP"):
 			ok := st.Has("oaep-ok")
 			if !ok {
